@@ -170,6 +170,7 @@ struct State {
     edges: BTreeSet<(u32, u32)>,
     panics: Vec<(usize, String)>,
     mismatch: Option<String>,
+    verbose: bool,
 }
 
 struct Shared {
@@ -302,7 +303,7 @@ pub fn point(lock: &AtomicU64, op: Op) -> Option<bool> {
     let sh = unsafe { &*shp };
     let id = lock_id(lock);
     let site = if op.is_acquire() {
-        let rs = { sh.state.lock().map(|g| g.record_sites && !g.over).unwrap_or(false) };
+        let rs = { sh.state.lock().map(|g| (g.record_sites || g.verbose) && !g.over).unwrap_or(false) };
         if rs {
             Some(capture_site_cached())
         } else {
@@ -715,6 +716,10 @@ impl State {
             let (lid, op) = self.threads[t].pending.unwrap_or((0, Op::Yield));
             let ord = if lid != 0 { self.ordinal(lid) } else { 0 };
             self.trace_hash = fnv(self.trace_hash, ((t as u64) << 40) | ((op as u64) << 32) | ord as u64);
+            if self.verbose {
+                let site = self.sites.get(self.threads[t].pending_site as usize).cloned().unwrap_or_default();
+                eprintln!("[sched] d={} T{} {:?} lock#{} {}", self.decisions, t, op, ord, site);
+            }
             if self.threads[t].pending.is_none() {
                 self.threads[t].started = true;
                 return Some(t);
@@ -846,6 +851,7 @@ pub fn run(cfg: RunConfig, bodies: Vec<Box<dyn FnOnce() + Send + 'static>>) -> R
         edges: BTreeSet::new(),
         panics: Vec::new(),
         mismatch: None,
+        verbose: std::env::var_os("VSIM_TRACE").is_some(),
     };
     let shared = Arc::new(Shared { state: StdMutex::new(state), cvs: (0..n).map(|_| Condvar::new()).collect(), done: Condvar::new() });
 
